@@ -438,6 +438,7 @@ def generic_check(prop, tier, own, scns, plans, rule, gens=None, extra_assume=()
     t0 = time.time()
     vlib.TIME_BUDGET = 60 if tier == "quick" else 240
     vlib.MM_MAX_EVENTS_PER_FILE = 150000 if tier == "quick" else 600000
+    vlib.OWN_IDS = list(own)
     wd = vlib.workdir(prop)
     v = vlib.Verdict(prop, own)
     cov = new_cov(rule)
